@@ -326,7 +326,14 @@ def build_def_op(op):
         pass
     if op.get("mask") is None:
         return cls(op["m"])
-    return cls(op["m"], mask=np.array(op["mask"], dtype=bool).reshape(3, 3))
+    m = np.array(op["mask"], dtype=bool).reshape(3, 3)
+    # a mask is a mask: as booleans, as the 0/1 integers ASE writes its masks with, or as nested lists
+    kind = int(sum(op["mask"])) % 3
+    if kind == 1:
+        m = m.astype(int)
+    elif kind == 2:
+        m = m.tolist()
+    return cls(op["m"], mask=m)
 
 
 def make_rng(case):
